@@ -357,6 +357,8 @@ C14_Quorum ==
        /\ (k \notin DOMAIN attest \/ ~InSeq(l.s, attest[k].names) \/ l.s \in attest[k].done) =>
              (proofs' = proofs /\ files' = files /\ attest' = attest)
        /\ report' = report /\ providers' = providers /\ bal' = bal
+       \* a sign-off touches only the proof record of the prover the form concerns (never the signer's or anybody else's)
+       /\ \A k2 \in DOMAIN proofs : k2 # k => (k2 \in DOMAIN proofs' /\ proofs'[k2] = proofs[k2])
   /\ (l.a = "report") =>
        LET k == <<l.p, l.f>> IN
        /\ (files' # files \/ proofs' # proofs) =>
